@@ -85,7 +85,7 @@ add_sym = op('add_sym', d=I, form=st.integers(0, 3), jol=st.booleans(), tgt=I, s
 rm_sym = op('rm_sym', i=I)
 hide = op('hide', i=I, via=st.integers(0, 1), on=st.sampled_from([1, 1, 0]))
 dup_pvd = op('dup_pvd')
-set_reloc = op('set_reloc', sz=st.integers(0, 2), lead=I, salt=I, rsz=st.sampled_from([0, 1, 2, 3, 4, 5, 6, 8]))
+set_reloc = op('set_reloc', sz=st.integers(0, 2), lead=I, salt=I, rsz=st.sampled_from([0, 1, 2, 3, 4, 5, 6, 8]), badrr=st.sampled_from([0] * 8 + [1, 2, 3]))
 force = op('force')
 query = op('query', q=st.integers(0, 5), i=I)
 write = op('write')
